@@ -301,6 +301,16 @@ def factory(base, suffix):
 print(B().who(), B.make(), B().p, factory(B, "x")().who()[1][1:])
 print(B().tagged("t", "u", z=1), B().after("!"))
 ''',
+    "string_values": '''
+path = "C:\\\\temp\\\\new_file.txt"
+sep = "\\\\"
+esc = "line\\nbreak\\ttab \\\\n literal"
+quotes = 'it\\'s "quoted"' + "\\x41\\u00e9"
+raw = r"\\d+\\.\\w*"
+fs = f"{path!r:>30}|{sep}|{len(esc)}|{raw}\\\\{quotes}"
+by = b"\\\\x00\\\\\\xff"
+print(path, sep, repr(esc), quotes, raw, fs, by, path.replace("\\\\", "/"), esc.replace("\\n", "\\\\n"))
+''',
     "class_hooks": '''
 def deco(f):
     def wrapped(*a, **k):
